@@ -364,8 +364,7 @@ Arguments wframe_block {R} W tasks env WN f.
 Arguments wp_generate_petri_net {R} W tasks f.
 
 (* small tools for running the monad backwards *)
-Ltac ninv H :=
-  let a := fresh "a" in let s := fresh "s" in let E := fresh "E" in
+Tactic Notation "ninv" hyp(H) "as" ident(a) ident(s) ident(E) :=
   apply nbind_inv in H; destruct H as (a & s & E & H).
 Ltac okinv H := inversion H; subst; clear H.
 
@@ -445,6 +444,13 @@ Proof.
   split; intros x [].
 Qed.
 
+Lemma IdB_refl_low : forall lt ls s, lt <= ns_tid s -> ls <= ns_sid s -> IdB lt ls s s.
+Proof.
+  intros lt ls s H1 H2. unfold IdB. repeat (split; [first [reflexivity | lia]|]).
+  exists []. cbn. split; [reflexivity|]. split; [constructor|]. split; [constructor|].
+  split; intros x [].
+Qed.
+
 Lemma IdB_IdN_trans : forall lt ls a b c, IdB lt ls a b -> IdN b c -> IdB lt ls a c.
 Proof.
   intros lt ls a b c (A1 & A2 & A3 & A4 & A5 & A6 & n1 & A7 & A8 & A9 & A10 & A11)
@@ -494,6 +500,16 @@ Proof.
   - specialize (R2 x Hx). lia.
 Qed.
 
+Lemma IdB_prepend_quiet : forall lt ls s s1 s' es,
+    ns_test_ids s1 = ns_test_ids s -> ns_ls s1 = ns_ls s -> ns_tid s1 = ns_tid s -> ns_sid s1 = ns_sid s ->
+    ns_log s1 = es ++ ns_log s -> sids TS es = [] -> sids SS es = [] ->
+    IdB lt ls s1 s' -> IdB lt ls s s'.
+Proof.
+  intros lt ls s s1 s' es H1 H2 H3 H4 H5 Q1 Q2 H.
+  eapply IdB_prepend with (es := es) (lt1 := lt) (ls1 := ls); try eassumption;
+    rewrite ?Q1, ?Q2; try (intros x []); try apply le_n; constructor.
+Qed.
+
 (* the statement needs: test-id mode, and no function registered twice for a kind *)
 Definition Good (s : NS) : Prop :=
   ns_test_ids s = true /\ forall k, NoDup (listeners_of k (ns_ls s)).
@@ -521,4 +537,840 @@ Proof.
   (* quiet log entries *)
   intros es Hq s a s' HH. inversion HH; subst; clear HH. intros _.
     apply IdN_step with (es := rev es); cbn; auto; apply sids_quiet; rewrite quietb_rev; exact Hq.
+Qed.
+
+(* ---- the identifier of one API object ---- *)
+Definition uuid_at (ai : nat) (s : NS) : option ident := option_map a_uuid (nth_error (ns_apis s) ai).
+
+(* nothing the statement talks about changes, and API object ai keeps its identifier *)
+Definition KeepU (ai : nat) (s s' : NS) : Prop :=
+  ns_test_ids s' = ns_test_ids s /\ ns_ls s' = ns_ls s /\ ns_tid s' = ns_tid s /\ ns_sid s' = ns_sid s /\
+  ns_log s' = ns_log s /\ uuid_at ai s' = uuid_at ai s.
+
+Lemma KeepU_refl : forall ai s, KeepU ai s s.
+Proof. intros. unfold KeepU. repeat split. Qed.
+Lemma KeepU_trans : forall ai a b c, KeepU ai a b -> KeepU ai b c -> KeepU ai a c.
+Proof. unfold KeepU. intros ai a b c H1 H2. intuition congruence. Qed.
+
+Lemma uuid_at_set_params : forall ai j ps s,
+    uuid_at ai (s <| ns_apis := upd j (with_params ps) (ns_apis s) |>) = uuid_at ai s.
+Proof.
+  intros. unfold uuid_at. cbn. rewrite nth_error_upd. destruct (Nat.eqb j ai); [|reflexivity].
+  destruct (nth_error (ns_apis s) ai); reflexivity.
+Qed.
+
+Lemma uuid_at_set_uuid : forall ai u s l a,
+    nth_error l ai = Some a ->
+    uuid_at ai (s <| ns_apis := upd ai (with_uuid u) l |>) = Some u.
+Proof.
+  intros ai u s l a H. unfold uuid_at. cbn. rewrite nth_error_upd, Nat.eqb_refl, H. reflexivity.
+Qed.
+
+Lemma KeepU_set_params : forall ai j ps s u s',
+    set_api j (with_params ps) s = Ok (u, s') -> KeepU ai s s'.
+Proof.
+  intros ai j ps s u s' H. okinv H. unfold KeepU. repeat split. apply uuid_at_set_params.
+Qed.
+
+Lemma KeepU_substitute : forall tasks ai j s u s',
+    substitute_loop_indexes tasks j s = Ok (u, s') -> KeepU ai s s'.
+Proof.
+  intros tasks ai j s u s' H. unfold substitute_loop_indexes in H.
+  ninv H as a s1 E. apply get_api_inv in E. destruct E as [-> Ea].
+  destruct (a_ctx a) as [ci|]; [|okinv H; apply KeepU_refl].
+  ninv H as c s1 E. apply get_api_inv in E. destruct E as [-> Ec].
+  ninv H as s0 s1 E. okinv E.
+  destruct (dict_get ident_eqb (a_uuid c) (ns_counters s1)) as [d|]; [|okinv H; apply KeepU_refl].
+  destruct (subst_all (current_counters' tasks d) [] (a_params a)) as [ps' cur'].
+  ninv H as u1 s2 E. okinv E. okinv H. unfold KeepU. repeat split. cbn. apply uuid_at_set_params.
+Qed.
+
+Lemma skipn_nth : forall A (l : list A) i x, nth_error l i = Some x -> skipn i l = x :: skipn (S i) l.
+Proof.
+  intros A l. induction l as [|y l IH]; intros [|i] x H; try discriminate H.
+  - inversion H. reflexivity.
+  - cbn in H. cbn [skipn]. rewrite (IH _ _ H). reflexivity.
+Qed.
+
+(* the lower ends of the identifier ranges of a notification that is about to be delivered:
+   for a started notification the identifier was drawn just before *)
+Definition lowT (k : nkind) (s : NS) : nat := match k with TS => pred (ns_tid s) | _ => ns_tid s end.
+Definition lowS (k : nkind) (s : NS) : nat := match k with SS => pred (ns_sid s) | _ => ns_sid s end.
+Definition fresh_for (k : nkind) (ai : nat) (s : NS) : Prop :=
+  forall a, nth_error (ns_apis s) ai = Some a ->
+            match k with
+            | TS => S (ident_nat (a_uuid a)) = ns_tid s
+            | SS => S (ident_nat (a_uuid a)) = ns_sid s
+            | _ => True
+            end.
+
+(* the start handlers up to the notification *)
+Section Prefixes.
+  Variable tasks : list task.
+
+  Definition ots_prefix (ai : nat) : NM unit :=
+    a <~ get_api ai ;;
+    s <~ nget ;;
+    (if a_in_loop a
+     then
+       u <~ new_test_or_uuid true ;;
+       set_api ai (with_uuid u) ;;~
+       (if a_has_call a then set_api ai (with_params (a_src a)) else nret tt) ;;~
+       substitute_loop_indexes tasks ai
+     else if ns_test_ids s
+          then u <~ new_test_or_uuid true ;; set_api ai (with_uuid u)
+          else nret tt).
+
+  Lemma ots_body_split : forall nu ai s,
+      ots_body tasks nu ai s = (ots_prefix ai ;;~ nu TS ai false) s.
+  Proof.
+    intros. unfold ots_body, ots_prefix. rewrite nbind_assoc. apply nbind_ext; intros a s1.
+    rewrite nbind_assoc. reflexivity.
+  Qed.
+
+  Definition oss_prefix (ai : nat) : NM unit :=
+    a <~ get_api ai ;;
+    s <~ nget ;;
+    (if a_in_loop a
+     then
+       u0 <~ fresh_uuid ;;
+       u <~ (if ns_test_ids s then new_test_or_uuid false else nret u0) ;;
+       rebind_uuid a ai u ;;~
+       set_api ai (with_params (a_src a)) ;;~
+       substitute_loop_indexes tasks ai
+     else if ns_test_ids s
+          then u <~ new_test_or_uuid false ;; rebind_uuid a ai u
+          else nret tt).
+
+  Definition oss_announce (nu : nkind -> nat -> bool -> NM unit) (ai : nat) : NM unit :=
+    a' <~ get_api ai ;;
+    nmod (fun s => s <| ns_awaited := ns_awaited s ++ [EvFinish (a_uuid a')] |>) ;;~
+    nu SS ai false.
+
+  Lemma oss_body_split : forall nu ai s,
+      oss_body tasks nu ai s = (oss_prefix ai ;;~ oss_announce nu ai) s.
+  Proof.
+    intros. unfold oss_body, oss_prefix, oss_announce. rewrite nbind_assoc. apply nbind_ext; intros a s1.
+    rewrite nbind_assoc. reflexivity.
+  Qed.
+
+  Definition started_state (task_kind : bool) (ai : nat) (s s1 : NS) : Prop :=
+    ns_test_ids s1 = true /\ ns_ls s1 = ns_ls s /\ ns_log s1 = ns_log s /\
+    ns_tid s1 = (if task_kind then S (ns_tid s) else ns_tid s) /\
+    ns_sid s1 = (if task_kind then ns_sid s else S (ns_sid s)) /\
+    uuid_at ai s1 = Some (ITest (if task_kind then ns_tid s else ns_sid s)).
+
+  Lemma started_state_keep : forall b ai s s1 s2,
+      started_state b ai s s1 -> KeepU ai s1 s2 -> started_state b ai s s2.
+  Proof.
+    intros b ai s s1 s2 (B1 & B2 & B3 & B4 & B5 & B6) (K1 & K2 & K3 & K4 & K5 & K6).
+    unfold started_state. repeat (split; [congruence|]). congruence.
+  Qed.
+
+  (* test-id mode: the task instance gets the identifier ITest (old ns_tid) *)
+  Lemma ots_prefix_test : forall ai s u s1,
+      ots_prefix ai s = Ok (u, s1) -> ns_test_ids s = true -> started_state true ai s s1.
+  Proof.
+    intros ai s u s1 H T. unfold ots_prefix in H.
+    ninv H as a s0 E. apply get_api_inv in E. destruct E as [-> Ea].
+    ninv H as s0 s2 E. okinv E.
+    assert (Q : started_state true ai s2
+                              (s2 <| ns_tid := S (ns_tid s2) |>
+                                  <| ns_apis := upd ai (with_uuid (ITest (ns_tid s2))) (ns_apis s2) |>)).
+    { unfold started_state. cbn. repeat (split; [first [assumption|reflexivity]|]).
+      eapply uuid_at_set_uuid. exact Ea. }
+    destruct (a_in_loop a).
+    - ninv H as u0 s3 E. rewrite (new_test_or_uuid_test true _ T) in E. okinv E.
+      ninv H as u1 s3 E. okinv E.
+      ninv H as u2 s3 E. eapply started_state_keep; [exact Q|].
+      eapply KeepU_trans; [|eapply KeepU_substitute; exact H].
+      destruct (a_has_call a); [eapply KeepU_set_params; exact E|okinv E; apply KeepU_refl].
+    - rewrite T in H. ninv H as u0 s3 E. rewrite (new_test_or_uuid_test true _ T) in E. okinv E. okinv H.
+      exact Q.
+  Qed.
+
+  Lemma rebind_started : forall a ai s s0 u1 s2,
+      nth_error (ns_apis s) ai = Some a ->
+      ns_apis s0 = ns_apis s -> ns_test_ids s0 = true -> ns_ls s0 = ns_ls s -> ns_log s0 = ns_log s ->
+      ns_tid s0 = ns_tid s -> ns_sid s0 = S (ns_sid s) ->
+      rebind_uuid a ai (ITest (ns_sid s)) s0 = Ok (u1, s2) ->
+      started_state false ai s s2.
+  Proof.
+    intros a ai s s0 u1 s2 Ea A1 A2 A3 A4 A5 A6 HR. unfold rebind_uuid in HR.
+    ninv HR as s3 s4 E. okinv E.
+    destruct (dict_get ident_eqb (a_uuid a) (ns_place_dict s4)) as [p|]; [|discriminate HR].
+    ninv HR as u2 s5 E. okinv E. okinv HR. unfold started_state. cbn. repeat (split; [assumption|]).
+    eapply uuid_at_set_uuid. rewrite A1. exact Ea.
+  Qed.
+
+  (* test-id mode: the service instance gets the identifier ITest (old ns_sid) *)
+  Lemma oss_prefix_test : forall ai s u s1,
+      oss_prefix ai s = Ok (u, s1) -> ns_test_ids s = true -> started_state false ai s s1.
+  Proof.
+    intros ai s u s1 H T. unfold oss_prefix in H.
+    ninv H as a s0 E. apply get_api_inv in E. destruct E as [-> Ea].
+    ninv H as s0 s2 E. okinv E.
+    destruct (a_in_loop a).
+    - ninv H as u0 s3 E. okinv E. rewrite T in H.
+      ninv H as u1 s3 E. rewrite new_test_or_uuid_test in E by exact T. okinv E.
+      ninv H as u2 s3 E. eapply (rebind_started a ai s2) in E; try reflexivity; try assumption.
+      ninv H as u3 s4 E0. eapply started_state_keep; [exact E|].
+      eapply KeepU_trans; [eapply KeepU_set_params; exact E0|eapply KeepU_substitute; exact H].
+    - rewrite T in H. ninv H as u0 s3 E. rewrite new_test_or_uuid_test in E by exact T. okinv E.
+      eapply (rebind_started a ai s2) in H; try reflexivity; assumption.
+  Qed.
+End Prefixes.
+
+Lemma fresh_for_started : forall b ai s s1,
+    started_state b ai s s1 -> fresh_for (if b then TS else SS) ai s1.
+Proof.
+  intros b ai s s1 (B1 & B2 & B3 & B4 & B5 & B6) a Ha. unfold uuid_at in B6. rewrite Ha in B6.
+  cbn in B6. inversion B6 as [B7]. destruct b; rewrite B7; cbn; congruence.
+Qed.
+
+Section IdsBlock.
+  Variable tasks : list task.
+  Variable env : envcfg.
+
+  (* the registered functions behind function 0 (or when function 0 is not registered) *)
+  Lemma notify_each_after : forall er k ai, (forall k a, fpres IdC (er k a)) ->
+      forall h i s u s',
+        notify_each er k ai h i s = Ok (u, s') -> Good s ->
+        ~ In 0 (skipn i (listeners_of k (ns_ls s))) -> IdN s s'.
+  Proof.
+    intros er k ai Her. induction h as [|h IH]; intros i s u s' H G Hn; [discriminate H|].
+    cbn [notify_each] in H. fold (notify_each er k ai) in H.
+    ninv H as s0 s1 E. okinv E.
+    destruct (nth_error (listeners_of k (ns_ls s1)) i) as [l|] eqn:El; [|okinv H; apply IdN_refl].
+    rewrite (skipn_nth _ _ _ _ El) in Hn.
+    ninv H as a s2 E. apply get_api_inv in E. destruct E as [-> Ea].
+    ninv H as u1 s2 E. okinv E.
+    ninv H as u2 s3 E.
+    destruct l as [|l]; [exfalso; apply Hn; left; reflexivity|].
+    cbn [Nat.eqb] in E. okinv E.
+    eapply IH in H; [|exact G|intro Hi; apply Hn; right; exact Hi].
+    eapply IdN_trans; [|exact H].
+    apply IdN_step with (es := [ENotif (S l) (notif_of s1 k a) (ns_running s1)]); reflexivity.
+  Qed.
+
+  (* all registered functions: function 0 is notified with the identifier drawn just before *)
+  Lemma notify_each_fresh : forall er k ai, (forall k a, fpres IdC (er k a)) ->
+      forall h i s u s',
+        notify_each er k ai h i s = Ok (u, s') -> Good s ->
+        NoDup (skipn i (listeners_of k (ns_ls s))) -> fresh_for k ai s ->
+        IdB (lowT k s) (lowS k s) s s'.
+  Proof.
+    intros er k ai Her. induction h as [|h IH]; intros i s u s' H G Hn Hf; [discriminate H|].
+    cbn [notify_each] in H. fold (notify_each er k ai) in H.
+    ninv H as s0 s1 E. okinv E.
+    assert (L1 : lowT k s1 <= ns_tid s1) by (destruct k; cbn; lia).
+    assert (L2 : lowS k s1 <= ns_sid s1) by (destruct k; cbn; lia).
+    destruct (nth_error (listeners_of k (ns_ls s1)) i) as [l|] eqn:El.
+    2:{ okinv H. apply IdB_refl_low; assumption. }
+    rewrite (skipn_nth _ _ _ _ El) in Hn. inversion Hn as [|x xs Hx Hn']; subst x xs.
+    ninv H as a s2 E. apply get_api_inv in E. destruct E as [-> Ea].
+    ninv H as u1 s2 E. okinv E.
+    ninv H as u2 s3 E.
+    destruct l as [|l].
+    - (* function 0 *)
+      cbn [Nat.eqb] in E. apply Her in E. specialize (E G).
+      assert (G3 : Good s3) by (eapply IdN_Good; [exact E|exact G]).
+      assert (L3 : ns_ls s3 = ns_ls s1) by (destruct E as (_ & E2 & _); exact E2).
+      eapply notify_each_after in H; [|exact Her|exact G3|rewrite L3; exact Hx].
+      pose proof (IdN_trans _ _ _ E H) as R.
+      eapply IdB_prepend with (es := [ENotif 0 (notif_of s1 k a) (ns_running s1)])
+                              (lt1 := ns_tid s1) (ls1 := ns_sid s1); [..|exact R]; try reflexivity;
+        try assumption; specialize (Hf a Ea); destruct k; cbn; try constructor; try (intros x []);
+          try constructor; try (intros x [<-|[]]); cbn; lia.
+    - cbn [Nat.eqb] in E. okinv E.
+      eapply IH in H; [|exact G|exact Hn'|exact Hf].
+      eapply IdB_prepend_quiet with (es := [ENotif (S l) (notif_of s1 k a) (ns_running s1)]);
+        [..|exact H]; reflexivity.
+  Qed.
+
+  (* notify_user *)
+  Definition nu_spec (nu : nkind -> nat -> bool -> NM unit) : Prop :=
+    forall k ai b s u s',
+      nu k ai b s = Ok (u, s') -> Good s -> fresh_for k ai s -> IdB (lowT k s) (lowS k s) s s'.
+
+  Lemma nu_body_ids : forall er, (forall k a, fpres IdC (er k a)) -> nu_spec (nu_body er).
+  Proof.
+    intros er Her k ai b s u s' H G Hf. unfold nu_body in H.
+    ninv H as s0 s1 E. okinv E.
+    ninv H as u1 s2 E.
+    eapply notify_each_fresh in E; [|exact Her|exact G|apply G|exact Hf].
+    change (nu_tail k ai b s2 = Ok (u, s')) in H.
+    apply (wp_nu_tail _ IdC_wframe) in H. eapply IdB_IdN_trans; [exact E|]. apply H.
+    eapply IdN_Good; eauto.
+  Qed.
+
+  Lemma nu_spec_fin : forall nu, nu_spec nu ->
+      (forall a b, fpres IdC (nu TF a b)) /\ (forall a b, fpres IdC (nu SF a b)).
+  Proof.
+    intros nu H. split; intros a b s u s' H1 G.
+    - apply (H TF a b s u s' H1 G). intros ? ?; exact I.
+    - apply (H SF a b s u s' H1 G). intros ? ?; exact I.
+  Qed.
+
+  Lemma ots_body_ids : forall nu, nu_spec nu -> forall ai, fpres IdC (ots_body tasks nu ai).
+  Proof.
+    intros nu Hnu ai s u s' H G. rewrite ots_body_split in H.
+    ninv H as u1 s1 E. apply ots_prefix_test in E; [|apply G].
+    pose proof (fresh_for_started _ _ _ _ E) as Hf. destruct E as (B1 & B2 & B3 & B4 & B5 & B6).
+    assert (G1 : Good s1) by (split; [exact B1|rewrite B2; apply G]).
+    pose proof (Hnu _ _ _ _ _ _ H G1 Hf) as R. clear H.
+    destruct R as (C1 & C2 & C3 & C4 & C5 & C6 & new & C7 & C8 & C9 & C10 & C11). cbn in C10, C11.
+    destruct G as [G0 _]. unfold IdN, IdB. repeat (split; [first [congruence|lia]|]).
+    exists new. split; [congruence|]. split; [exact C8|]. split; [exact C9|].
+    split; intros x Hx; [specialize (C10 x Hx)|specialize (C11 x Hx)]; lia.
+  Qed.
+
+  Lemma oss_body_ids : forall nu, nu_spec nu -> forall ai, fpres IdC (oss_body tasks nu ai).
+  Proof.
+    intros nu Hnu ai s u s' H G. rewrite oss_body_split in H.
+    ninv H as u1 s1 E. apply oss_prefix_test in E; [|apply G].
+    unfold oss_announce in H.
+    ninv H as a' s2 E1. apply get_api_inv in E1. destruct E1 as [-> Ea'].
+    ninv H as u2 s3 E1. okinv E1.
+    assert (E' : started_state false ai s (s1 <| ns_awaited := ns_awaited s1 ++ [EvFinish (a_uuid a')] |>)) by exact E.
+    clear E. pose proof (fresh_for_started _ _ _ _ E') as Hf. destruct E' as (B1 & B2 & B3 & B4 & B5 & B6).
+    assert (G1 : Good (s1 <| ns_awaited := ns_awaited s1 ++ [EvFinish (a_uuid a')] |>))
+      by (split; [exact B1|rewrite B2; apply G]).
+    pose proof (Hnu _ _ _ _ _ _ H G1 Hf) as R. clear H.
+    destruct R as (C1 & C2 & C3 & C4 & C5 & C6 & new & C7 & C8 & C9 & C10 & C11). cbn in C10, C11.
+    cbn in B1, B2, B3, B4, B5, C1, C2, C3, C4, C7.
+    destruct G as [G0 _]. unfold IdN, IdB. repeat (split; [first [congruence|lia]|]).
+    exists new. split; [congruence|]. split; [exact C8|]. split; [exact C9|].
+    split; intros x Hx; [specialize (C10 x Hx)|specialize (C11 x Hx)]; lia.
+  Qed.
+
+  (* every function of the mutual block, at every fuel *)
+  Theorem ids_block : forall f,
+      fpres IdC (evaluate tasks env f) /\
+      (forall c, fpres IdC (run_cb tasks env f c)) /\
+      (forall a, fpres IdC (on_task_started tasks env f a)) /\
+      (forall a, fpres IdC (on_service_started tasks env f a)) /\
+      (forall a, fpres IdC (on_service_finished tasks env f a)) /\
+      (forall a, fpres IdC (on_task_finished tasks env f a)) /\
+      nu_spec (notify_user tasks env f) /\
+      (forall k a, fpres IdC (engine_reacts tasks env f k a)) /\
+      (forall ev, fpres IdC (sched_fire_event tasks env f ev)) /\
+      (forall ev, fpres IdC (logic_fire_event tasks env f ev)).
+  Proof.
+    pose proof IdC_wframe as W.
+    induction f as [|f (I1 & I2 & I3 & I4 & I5 & I6 & I7 & I8 & I9 & I10)].
+    - repeat (split; [intros; intros ? ? ? HH; discriminate HH|]). split; [|split; [|split]].
+      + intros k ai b s u s' HH. discriminate HH.
+      + intros; intros ? ? ? HH; discriminate HH.
+      + intros; intros ? ? ? HH; discriminate HH.
+      + intros; intros ? ? ? HH; discriminate HH.
+    - destruct (nu_spec_fin _ I7) as [I7f I7s].
+      split; [|split; [|split; [|split; [|split; [|split; [|split; [|split; [|split]]]]]]]]; intros.
+      + intros s a s' HH. rewrite evaluate_S in HH. eapply (wp_scan_with _ W); eauto.
+      + eapply wp_ext; [intro; apply run_cb_S|]. apply (wp_run_cb_body _ W); assumption.
+      + eapply wp_ext; [intro; apply on_task_started_S|]. apply ots_body_ids; assumption.
+      + eapply wp_ext; [intro; apply on_service_started_S|]. apply oss_body_ids; assumption.
+      + eapply wp_ext; [intro; apply on_service_finished_S|]. apply I7s.
+      + eapply wp_ext; [intro; apply on_task_finished_S|]. apply (wp_otf_body _ W); assumption.
+      + intros k ai b s u s' HH. rewrite notify_user_S in HH. eapply nu_body_ids; eauto.
+      + eapply wp_ext; [intro; apply engine_reacts_S|]. apply (wp_er_body _ W); assumption.
+      + eapply wp_ext; [intro; apply sched_fire_event_S'|]. apply (wp_sfe_body _ W); assumption.
+      + eapply wp_ext; [intro; apply logic_fire_event_S|]. apply (wp_lfe_body _ W); assumption.
+  Qed.
+
+  Theorem sched_fire_event_ids : forall f ev s b s',
+      sched_fire_event tasks env f ev s = Ok (b, s') -> Good s -> IdN s s'.
+  Proof.
+    intros f ev s b s' H G.
+    exact (proj1 (proj2 (proj2 (proj2 (proj2 (proj2 (proj2 (proj2 (proj2 (ids_block f))))))))) ev s b s' H G).
+  Qed.
+End IdsBlock.
+
+(* ---- the public API and scripts ---- *)
+
+(* what holds between API calls: test-id mode, and no pair registered twice (the constructor
+   registers each kind once, register_callback_* refuses a second registration) *)
+Definition ApiInv (s : NS) : Prop := ns_test_ids s = true /\ NoDup (ns_ls s).
+
+Lemma nkind_eqb_eq : forall a b, nkind_eqb a b = true -> a = b.
+Proof. intros [] []; cbn; intro H; try discriminate H; reflexivity. Qed.
+
+Lemma NoDup_listeners : forall ls k, NoDup ls -> NoDup (listeners_of k ls).
+Proof.
+  intros ls k H. unfold listeners_of. induction H as [|p ls Hp H IH]; [constructor|].
+  cbn [filter]. destruct (nkind_eqb (fst p) k) eqn:Ek; [|exact IH].
+  cbn [map]. constructor; [|exact IH].
+  intro Hi. apply in_map_iff in Hi. destruct Hi as (q & Hq1 & Hq2).
+  apply filter_In in Hq2. destruct Hq2 as [Hq2 Hq3].
+  apply nkind_eqb_eq in Ek. apply nkind_eqb_eq in Hq3.
+  apply Hp. replace p with q; [exact Hq2|]. destruct p, q; cbn in *; congruence.
+Qed.
+
+Lemma ApiInv_Good : forall s, ApiInv s -> Good s.
+Proof. intros s [H1 H2]. split; [exact H1|]. intro k. apply NoDup_listeners. exact H2. Qed.
+
+Lemma register_fresh : forall (ls : list (nkind * nat)) k l,
+    existsb (fun p => nkind_eqb (fst p) k && Nat.eqb (snd p) l) ls = false -> ~ In (k, l) ls.
+Proof.
+  intros ls k l H Hi.
+  assert (X : existsb (fun p => nkind_eqb (fst p) k && Nat.eqb (snd p) l) ls = true).
+  { apply existsb_exists. exists (k, l). split; [exact Hi|]. cbn. rewrite Nat.eqb_refl. destruct k; reflexivity. }
+  congruence.
+Qed.
+
+Lemma NoDup_snoc : forall A (l : list A) x, NoDup l -> ~ In x l -> NoDup (l ++ [x]).
+Proof.
+  intros A l x H Hx. induction H as [|y l Hy H IH]; cbn.
+  - constructor; [intros []|constructor].
+  - constructor.
+    + intro Hi. apply in_app_iff in Hi. destruct Hi as [Hi|[Hi|[]]]; [exact (Hy Hi)|].
+      apply Hx. left. symmetry. exact Hi.
+    + apply IH. intro Hi. apply Hx. right. exact Hi.
+Qed.
+
+(* the started notifications to function 0 in one log: pairwise different identifiers of each
+   kind, from [t, t') resp. [s, s') *)
+Definition ids_in0 (t s t' s' : nat) (log : list entry) : Prop :=
+  NoDup (sids TS log) /\ NoDup (sids SS log) /\
+  (forall x, In x (sids TS log) -> t <= x < t') /\ (forall x, In x (sids SS log) -> s <= x < s').
+
+(* consecutive calls draw their identifiers from consecutive, disjoint ranges *)
+Fixpoint ranged0 (t s : nat) (tr : list callrec) : Prop :=
+  match tr with
+  | [] => True
+  | r :: tr' => exists t' s', t <= t' /\ s <= s' /\ ids_in0 t s t' s' (cr_log r) /\ ranged0 t' s' tr'
+  end.
+
+Lemma IdN_ids_in0 : forall s s', IdN s s' -> ns_log s = [] ->
+    ids_in0 (ns_tid s) (ns_sid s) (ns_tid s') (ns_sid s') (rev (ns_log s')).
+Proof.
+  intros s s' (_ & _ & _ & _ & _ & _ & new & H1 & H2 & H3 & H4 & H5) Hn.
+  rewrite H1, Hn, app_nil_r. unfold ids_in0. rewrite !sids_rev.
+  split; [apply NoDup_rev; exact H2|]. split; [apply NoDup_rev; exact H3|].
+  split; intros x Hx; apply in_rev in Hx; auto.
+Qed.
+
+Section NetApiIds.
+  Variable tasks : list task.
+  Variable env : envcfg.
+
+  Theorem net_api_ids : forall f s c b s',
+      ApiInv s -> net_api_call tasks env f s c = Ok (b, s') ->
+      ApiInv s' /\ ns_tid s <= ns_tid s' /\ ns_sid s <= ns_sid s' /\
+      ids_in0 (ns_tid s) (ns_sid s) (ns_tid s') (ns_sid s') (cr_log (net_observe b s')).
+  Proof.
+    intros f s c b s' [T L] H.
+    assert (Q : forall s0, ns_test_ids s0 = true -> NoDup (ns_ls s0) ->
+                           ns_tid s0 = ns_tid s -> ns_sid s0 = ns_sid s -> ns_log s0 = [] ->
+                           ApiInv s0 /\ ns_tid s <= ns_tid s0 /\ ns_sid s <= ns_sid s0 /\
+                           ids_in0 (ns_tid s) (ns_sid s) (ns_tid s0) (ns_sid s0) (cr_log (net_observe b s0))).
+    { intros s0 E1 E2 E3 E4 E5. split; [split; assumption|]. split; [lia|]. split; [lia|].
+      cbn [cr_log net_observe]. rewrite E5. cbn. unfold ids_in0. cbn.
+      split; [constructor|]. split; [constructor|]. split; intros x []. }
+    assert (Wk : forall s0 sz, ns_test_ids s0 = true -> ns_ls s0 = ns_ls s ->
+                              ns_tid s0 = ns_tid s -> ns_sid s0 = ns_sid s -> ns_log s0 = [] ->
+                              IdN s0 sz ->
+                              ApiInv sz /\ ns_tid s <= ns_tid sz /\ ns_sid s <= ns_sid sz /\
+                              ids_in0 (ns_tid s) (ns_sid s) (ns_tid sz) (ns_sid sz) (cr_log (net_observe b sz))).
+    { intros s0 sz E1 E2 E3 E4 E5 R. pose proof (IdN_ids_in0 _ _ R E5) as X. rewrite E3, E4 in X.
+      destruct R as (R1 & R2 & R3 & R4 & _).
+      split; [split; [congruence|rewrite R2, E2; exact L]|]. split; [lia|]. split; [lia|]. exact X. }
+    assert (G0 : forall s0, ns_test_ids s0 = true -> ns_ls s0 = ns_ls s -> Good s0).
+    { intros s0 E1 E2. apply ApiInv_Good. split; [exact E1|rewrite E2; exact L]. }
+    destruct c as [|id| |k l|o|o]; cbn [net_api_call] in H.
+    - change (ns_awaited (s <| ns_log := [] |>)) with (ns_awaited s) in H.
+      destruct (existsb (event_eqb EvStart) (ns_awaited s)).
+      + destruct (sched_fire_event tasks env f EvStart (s <| ns_log := [] |> <| ns_running := true |>))
+          as [[r sz]| | |] eqn:E; try discriminate H. okinv H.
+        apply sched_fire_event_ids in E; [|apply G0; [exact T|reflexivity]].
+        eapply Wk; [..|exact E]; first [exact T|reflexivity].
+      + okinv H. apply Q; first [exact T|exact L|reflexivity].
+    - apply sched_fire_event_ids in H; [|apply G0; [exact T|reflexivity]].
+      eapply Wk; [..|exact H]; first [exact T|reflexivity].
+    - apply sched_fire_event_ids in H; [|apply G0; [exact T|reflexivity]].
+      eapply Wk; [..|exact H]; first [exact T|reflexivity].
+    - change (ns_ls (s <| ns_log := [] |>)) with (ns_ls s) in H.
+      destruct (existsb (fun p => nkind_eqb (fst p) k && Nat.eqb (snd p) l) (ns_ls s)) eqn:Ex; okinv H.
+      + apply Q; first [exact T|exact L|reflexivity].
+      + apply Q; try first [exact T|reflexivity]. cbn. apply NoDup_snoc; [exact L|].
+        apply register_fresh. exact Ex.
+    - okinv H. apply Q; first [exact T|exact L|reflexivity].
+    - change (ns_obs (s <| ns_log := [] |>)) with (ns_obs s) in H.
+      destruct (remove_first (Nat.eqb o) (ns_obs s)); okinv H.
+      apply Q; first [exact T|exact L|reflexivity].
+  Qed.
+
+  (* C14 on the faithful model: the trace of any script is ranged *)
+  Theorem net_ranged : forall f cs s tr,
+      ApiInv s -> net_run_script tasks env f s cs = Ok tr -> ranged0 (ns_tid s) (ns_sid s) tr.
+  Proof.
+    intros f cs. induction cs as [|c cs IH]; intros s tr A H; cbn [net_run_script] in H.
+    - okinv H. exact I.
+    - destruct (net_api_call tasks env f s c) as [[b s1]| | |] eqn:E; cbn [rbind] in H; try discriminate H.
+      destruct (net_run_script tasks env f s1 cs) as [t| | |] eqn:E2; cbn [rbind] in H; try discriminate H.
+      okinv H. destruct (net_api_ids _ _ _ _ _ A E) as (A1 & A2 & A3 & A4).
+      cbn [ranged0]. exists (ns_tid s1), (ns_sid s1). repeat (split; [assumption|]). apply IH; assumption.
+  Qed.
+End NetApiIds.
+
+(* ---- consequences of [ranged0] ---- *)
+Lemma ranged0_all : forall tr t s,
+    ranged0 t s tr ->
+    NoDup (sids TS (flat_map cr_log tr)) /\ NoDup (sids SS (flat_map cr_log tr)) /\
+    (forall x, In x (sids TS (flat_map cr_log tr)) -> t <= x) /\
+    (forall x, In x (sids SS (flat_map cr_log tr)) -> s <= x).
+Proof.
+  induction tr as [|r tr IH]; intros t s H.
+  - cbn. split; [constructor|]. split; [constructor|]. split; intros x [].
+  - destruct H as (t' & s' & H1 & H2 & (N1 & N2 & R1 & R2) & H3).
+    destruct (IH _ _ H3) as (M1 & M2 & L1 & L2). cbn [flat_map]. rewrite !sids_app.
+    assert (X : forall (l1 l2 : list nat) lo mid, NoDup l1 -> NoDup l2 ->
+                  (forall x, In x l1 -> lo <= x < mid) -> (forall x, In x l2 -> mid <= x) -> NoDup (l1 ++ l2)).
+    { intros l1 l2 lo mid D1 D2 B1 B2. induction D1 as [|x l1 Hx D1 IH1]; [exact D2|]. cbn. constructor.
+      - intro Hi. apply in_app_iff in Hi. destruct Hi as [Hi|Hi]; [exact (Hx Hi)|].
+        specialize (B1 x (or_introl eq_refl)). specialize (B2 x Hi). lia.
+      - apply IH1. intros y Hy. apply B1. right. exact Hy. }
+    split; [eapply X; eauto|]. split; [eapply X; eauto|].
+    split; intros x Hx; apply in_app_iff in Hx; destruct Hx as [Hx|Hx].
+    + specialize (R1 x Hx). lia.
+    + specialize (L1 x Hx). lia.
+    + specialize (R2 x Hx). lia.
+    + specialize (L2 x Hx). lia.
+Qed.
+
+Lemma nkind_eqb_refl : forall k, nkind_eqb k k = true.
+Proof. intros []; reflexivity. Qed.
+
+Lemma sids_In_nth : forall k L j n r,
+    nth_error L j = Some (ENotif 0 n r) -> n_kind n = k -> In (n_id n) (sids k L).
+Proof.
+  intros k L. induction L as [|e L IH]; intros [|j] n r H Hk; try discriminate H; unfold sids; cbn [flat_map].
+  - inversion H; subst e. cbn. rewrite Hk, nkind_eqb_refl. left. reflexivity.
+  - apply in_app_iff. right. cbn in H. eapply IH; eauto.
+Qed.
+
+(* no repetition among the identifiers = no two started notifications (to function 0, of that
+   kind) at different positions of the history carry the same identifier *)
+Lemma sids_nth_unique : forall k L i j n1 r1 n2 r2,
+    NoDup (sids k L) ->
+    nth_error L i = Some (ENotif 0 n1 r1) -> nth_error L j = Some (ENotif 0 n2 r2) ->
+    n_kind n1 = k -> n_kind n2 = k -> n_id n1 = n_id n2 -> i = j.
+Proof.
+  intros k L. induction L as [|e L IH]; intros i j n1 r1 n2 r2 N H1 H2 K1 K2 Hid; [destruct i; discriminate H1|].
+  unfold sids in N. cbn [flat_map] in N. fold (sids k L) in N.
+  assert (NL : NoDup (sids k L)).
+  { clear - N. induction (sid_of k e) as [|c fa IHf]; [exact N|]. inversion N; auto. }
+  assert (X : forall n r m q j', e = ENotif 0 n r -> n_kind n = k -> nth_error L j' = Some (ENotif 0 m q) ->
+                                 n_kind m = k -> n_id n = n_id m -> False).
+  { intros n r m q j' -> Kn Hj Km Hid'. cbn in N. rewrite Kn, nkind_eqb_refl in N. cbn in N.
+    inversion N as [|x xs N1 N2]; subst. apply N1. rewrite Hid'. eapply sids_In_nth; eauto. }
+  destruct i as [|i], j as [|j]; cbn in H1, H2.
+  - reflexivity.
+  - exfalso. inversion H1; subst e. eapply X; eauto.
+  - exfalso. inversion H2; subst e. eapply X; eauto.
+  - f_equal. eapply IH; eauto.
+Qed.
+
+Lemma sids_In_unique : forall k L n1 r1 n2 r2,
+    NoDup (sids k L) ->
+    In (ENotif 0 n1 r1) L -> In (ENotif 0 n2 r2) L ->
+    n_kind n1 = k -> n_kind n2 = k -> n_id n1 = n_id n2 -> n1 = n2 /\ r1 = r2.
+Proof.
+  intros k L n1 r1 n2 r2 N I1 I2 K1 K2 Hid.
+  apply In_nth_error in I1. destruct I1 as [i Hi]. apply In_nth_error in I2. destruct I2 as [j Hj].
+  assert (i = j) by (eapply sids_nth_unique; eauto). subst j. rewrite Hi in Hj. inversion Hj. auto.
+Qed.
+
+Lemma ranged0_lower : forall tr t s i ri,
+    ranged0 t s tr -> nth_error tr i = Some ri ->
+    (forall x, In x (sids TS (cr_log ri)) -> t <= x) /\ (forall x, In x (sids SS (cr_log ri)) -> s <= x).
+Proof.
+  induction tr as [|r0 tr IH]; intros t s i ri H Hn; [destruct i; discriminate Hn|].
+  destruct H as (t' & s' & H1 & H2 & (_ & _ & R1 & R2) & H4). destruct i as [|i]; cbn in Hn.
+  - inversion Hn; subst. split; intros x Hx; [specialize (R1 x Hx)|specialize (R2 x Hx)]; lia.
+  - destruct (IH _ _ _ _ H4 Hn) as [L1 L2]. split; intros x Hx; [specialize (L1 x Hx)|specialize (L2 x Hx)]; lia.
+Qed.
+
+Definition started_kind (k : nkind) : Prop := k = TS \/ k = SS.
+
+Lemma sids_In : forall k L n r, In (ENotif 0 n r) L -> n_kind n = k -> In (n_id n) (sids k L).
+Proof.
+  intros k L n r Hi Hk. apply In_nth_error in Hi. destruct Hi as [j Hj]. eapply sids_In_nth; eauto.
+Qed.
+
+(* the shape of RefIds.ranged_unique: equal identifiers of one started kind, delivered to
+   function 0 in calls i and j, mean the same call and the same entry *)
+Theorem ranged0_unique : forall tr t s i j ri rj n1 r1 n2 r2,
+    ranged0 t s tr ->
+    nth_error tr i = Some ri -> nth_error tr j = Some rj ->
+    In (ENotif 0 n1 r1) (cr_log ri) -> In (ENotif 0 n2 r2) (cr_log rj) ->
+    started_kind (n_kind n1) -> n_kind n1 = n_kind n2 -> n_id n1 = n_id n2 ->
+    i = j /\ n1 = n2 /\ r1 = r2.
+Proof.
+  induction tr as [|r0 tr IH]; intros t s i j ri rj n1 r1 n2 r2 H Hi Hj I1 I2 Hk He Hid;
+    [destruct i; discriminate Hi|].
+  pose proof H as H0. destruct H as (t' & s' & H1 & H2 & (N1 & N2 & R1 & R2) & H4).
+  assert (Clash : forall rz z na ra nb rb,
+             nth_error tr z = Some rz -> In (ENotif 0 na ra) (cr_log r0) -> In (ENotif 0 nb rb) (cr_log rz) ->
+             started_kind (n_kind na) -> n_kind na = n_kind nb -> n_id na = n_id nb -> False).
+  { intros rz z na ra nb rb Hz Ia Ib Hka Hkab Hidab. destruct (ranged0_lower _ _ _ _ _ H4 Hz) as [L1 L2].
+    destruct Hka as [Hka|Hka].
+    - pose proof (sids_In TS _ _ _ Ia Hka) as X. apply R1 in X.
+      assert (Y : In (n_id nb) (sids TS (cr_log rz))) by (eapply sids_In; eauto; congruence). apply L1 in Y. lia.
+    - pose proof (sids_In SS _ _ _ Ia Hka) as X. apply R2 in X.
+      assert (Y : In (n_id nb) (sids SS (cr_log rz))) by (eapply sids_In; eauto; congruence). apply L2 in Y. lia. }
+  destruct i as [|i], j as [|j]; cbn in Hi, Hj.
+  - inversion Hi; subst ri. inversion Hj; subst rj. split; [reflexivity|].
+    destruct Hk as [Hk|Hk];
+      [apply (sids_In_unique TS (cr_log r0) n1 r1 n2 r2)|apply (sids_In_unique SS (cr_log r0) n1 r1 n2 r2)];
+      auto; congruence.
+  - exfalso. inversion Hi; subst ri. eapply Clash; eauto.
+  - exfalso. inversion Hj; subst rj. eapply (Clash ri i n2 r2 n1 r1); eauto.
+    + rewrite <- He. exact Hk.
+  - destruct (IH _ _ _ _ _ _ _ _ _ _ H4 Hi Hj I1 I2 Hk He Hid) as (E1 & E2 & E3). repeat split; congruence.
+Qed.
+
+(* ---- C14 on the faithful model: headline statements ---- *)
+Section C14Net.
+  Variable tasks : list task.
+  Variable env : envcfg.
+
+  (* over the whole history of a script: no identifier is delivered twice to function 0 in a
+     task-started notification, none twice in a service-started notification *)
+  Theorem net_ids_unique : forall f cs s tr,
+      ApiInv s -> net_run_script tasks env f s cs = Ok tr ->
+      NoDup (sids TS (flat_map cr_log tr)) /\ NoDup (sids SS (flat_map cr_log tr)).
+  Proof.
+    intros f cs s tr A H. apply (net_ranged tasks env) in H; [|exact A].
+    destruct (ranged0_all _ _ _ H) as (H1 & H2 & _). split; assumption.
+  Qed.
+
+  (* the same by positions in the history *)
+  Theorem net_ids_positions : forall f cs s tr i j n1 r1 n2 r2,
+      ApiInv s -> net_run_script tasks env f s cs = Ok tr ->
+      nth_error (flat_map cr_log tr) i = Some (ENotif 0 n1 r1) ->
+      nth_error (flat_map cr_log tr) j = Some (ENotif 0 n2 r2) ->
+      started_kind (n_kind n1) -> n_kind n1 = n_kind n2 -> n_id n1 = n_id n2 -> i = j.
+  Proof.
+    intros f cs s tr i j n1 r1 n2 r2 A H Hi Hj Hk He Hid.
+    destruct (net_ids_unique _ _ _ _ A H) as [N1 N2].
+    destruct Hk as [Hk|Hk];
+      [apply (sids_nth_unique TS (flat_map cr_log tr) i j n1 r1 n2 r2)
+      |apply (sids_nth_unique SS (flat_map cr_log tr) i j n1 r1 n2 r2)]; auto; congruence.
+  Qed.
+
+  (* the shape of RefIds.ranged_ref / ranged_unique *)
+  Theorem net_ids_pairwise : forall f cs s tr i j ri rj n1 r1 n2 r2,
+      ApiInv s -> net_run_script tasks env f s cs = Ok tr ->
+      nth_error tr i = Some ri -> nth_error tr j = Some rj ->
+      In (ENotif 0 n1 r1) (cr_log ri) -> In (ENotif 0 n2 r2) (cr_log rj) ->
+      started_kind (n_kind n1) -> n_kind n1 = n_kind n2 -> n_id n1 = n_id n2 ->
+      i = j /\ n1 = n2 /\ r1 = r2.
+  Proof.
+    intros f cs s tr i j ri rj n1 r1 n2 r2 A H. apply (net_ranged tasks env) in H; [|exact A].
+    eapply ranged0_unique; eauto.
+  Qed.
+
+  (* the invariant is maintained by every API call, so it holds along any call sequence *)
+  Theorem api_reach_inv : forall f s s', api_reach tasks env f s s' -> ApiInv s -> ApiInv s'.
+  Proof.
+    intros f s s' H A. induction H as [s|s s1 c b s2 _ IH H]; [exact A|].
+    exact (proj1 (net_api_ids tasks env _ _ _ _ _ (IH A) H)).
+  Qed.
+End C14Net.
+
+(* the constructor establishes the invariant *)
+Definition mode_ls (s s' : NS) : Prop := ns_test_ids s' = ns_test_ids s /\ ns_ls s' = ns_ls s.
+
+Theorem mode_ls_wframe : wframe mode_ls.
+Proof.
+  constructor;
+    try (intros; try (match goal with |- fpres _ _ => intros ? ? ? HH; inversion HH; subst; clear HH end);
+         unfold mode_ls; cbn; split; reflexivity).
+  unfold mode_ls. intros a b c [H1 H2] [H3 H4]. split; congruence.
+Qed.
+
+Theorem net_init_inv : forall tasks s0, net_init tasks true = Ok s0 -> ApiInv s0.
+Proof.
+  intros tasks s0 H. unfold net_init in H.
+  destruct (generate_petri_net tasks 200 (ns0 true)) as [[u s]| | |] eqn:E; try discriminate H. okinv H.
+  apply (wp_generate_petri_net mode_ls_wframe) in E. destruct E as [E1 E2]. split.
+  - rewrite E1. reflexivity.
+  - rewrite E2. cbn. unfold default_listeners.
+    repeat (constructor; [cbn; intuition discriminate|]). constructor.
+Qed.
+
+(* C14 for the cases the correspondence check runs *)
+Theorem run_net_ids_unique : forall c tr,
+    run_net c = Ok tr ->
+    NoDup (sids TS (flat_map cr_log tr)) /\ NoDup (sids SS (flat_map cr_log tr)).
+Proof.
+  intros c tr H. unfold run_net in H. destruct (rc_test_ids c); [|discriminate H].
+  destruct (net_init (p_tasks (rc_prog c)) true) as [s0| | |] eqn:E; cbn [rbind] in H; try discriminate H.
+  eapply net_ids_unique; [eapply net_init_inv; exact E|exact H].
+Qed.
+
+Theorem run_net_ranged : forall c tr, run_net c = Ok tr -> exists t s, ranged0 t s tr.
+Proof.
+  intros c tr H. unfold run_net in H. destruct (rc_test_ids c); [|discriminate H].
+  destruct (net_init (p_tasks (rc_prog c)) true) as [s0| | |] eqn:E; cbn [rbind] in H; try discriminate H.
+  exists (ns_tid s0), (ns_sid s0). eapply net_ranged; [eapply net_init_inv; exact E|exact H].
+Qed.
+
+(* ---- the hypotheses are inhabited; the restriction to function 0 is necessary ---- *)
+
+(* on the example of Examples.v (all statement kinds, a parallel loop with run-time generation,
+   an immediately completing service) the 16 calls return and function 0 is told the task
+   identifiers 0..4 and the service identifiers 0..10, each once *)
+Example ids_inhabited :
+  exists tr, run_net ex_case = Ok tr /\ List.length tr = 16 /\
+             sids TS (flat_map cr_log tr) = seq 0 5 /\ sids SS (flat_map cr_log tr) = seq 0 11.
+Proof. eexists. split; [vm_compute; reflexivity|]. split; [reflexivity|]. split; vm_compute; reflexivity. Qed.
+
+(* a history with re-entrant completions from inside notifications (rc_react), immediate
+   completions and the hostile engine *)
+Definition ex_reentrant : runcase :=
+  {| rc_prog := rc_prog ex_case; rc_vals := rc_vals ex_case;
+     rc_imm := [false; true; false; true; false; false; true];
+     rc_script := [AStart; AFinish 0; AFinish 1; AFinish 2; AFinish 3; AFinish 4; AFinish 5; AFinish 6;
+                   AFinish 7; AFinish 8; AFinish 9; AFinish 10; AFinish 11];
+     rc_react := [None; None; Some 0; None; Some 1; Some 0; None; Some 0];
+     rc_react_all := true; rc_mutate := 1; rc_test_ids := true |}.
+
+Example ids_inhabited_reentrant :
+  exists tr, run_net ex_reentrant = Ok tr /\ List.length tr = 13 /\ existsb cr_final tr = true /\
+             existsb (fun e => match e with EFireIn _ => true | _ => false end) (flat_map cr_log tr) = true /\
+             sids TS (flat_map cr_log tr) = seq 0 5 /\ sids SS (flat_map cr_log tr) = seq 0 11.
+Proof.
+  eexists. split; [vm_compute; reflexivity|]. split; [reflexivity|].
+  split; [vm_compute; reflexivity|]. split; [vm_compute; reflexivity|]. split; vm_compute; reflexivity.
+Qed.
+
+(* the identifiers of kind k delivered to registered function l *)
+Definition sids_of (l : nat) (k : nkind) (es : list entry) : list nat :=
+  flat_map (fun e => match e with
+                     | ENotif l' n _ => if Nat.eqb l l' && nkind_eqb (n_kind n) k then [n_id n] else []
+                     | _ => [] end) es.
+
+(* FINDING.  The statement is false for a second registered function.  Program: a counting
+   loop around one service; a second service-started function is registered; the first start of
+   the service is completed from inside function 0's notification.  The nested fire_event runs
+   the loop on and restarts the SAME ServiceAPI object (identifier 0 -> 1) before the outer
+   on_service_started reaches function 1, which therefore is told identifier 1 twice and
+   identifier 0 never.  (scheduler.py passes the one mutable API object to every callback.) *)
+Definition second_listener_case : runcase :=
+  {| rc_prog := {| p_structs := [];
+                   p_tasks := [{| t_name := 0; t_ins := [];
+                                  t_body := [SCount false 19 (LimInt 2) [SService 20 [] []]];
+                                  t_outs := [] |}] |};
+     rc_vals := []; rc_imm := [true; false; false];
+     rc_script := [ARegister SS 1; AStart];
+     rc_react := []; rc_react_all := false; rc_mutate := 0; rc_test_ids := true |}.
+
+Example second_listener_duplicates :
+  exists tr, run_net second_listener_case = Ok tr /\
+             sids_of 0 SS (flat_map cr_log tr) = [0; 1] /\
+             sids_of 1 SS (flat_map cr_log tr) = [1; 1].
+Proof. eexists. split; [vm_compute; reflexivity|]. split; vm_compute; reflexivity. Qed.
+
+(* =========================================================================== *)
+(* 3. C15: source lists are never written; in-loop instances are rebuilt from    *)
+(*    the source at every start                                                  *)
+(* =========================================================================== *)
+
+(* ---- (a) the static part of every API object ---- *)
+Definition static_of (a : api) : bool * name * site * option nat * bool * list param * bool :=
+  (a_is_task a, a_name a, a_site a, a_ctx a, a_in_loop a, a_src a, a_has_call a).
+
+(* API objects are never removed, and only their identifier and delivered list are written *)
+Definition api_static (s s' : NS) : Prop :=
+  forall i a, nth_error (ns_apis s) i = Some a ->
+              exists a', nth_error (ns_apis s') i = Some a' /\ static_of a' = static_of a.
+
+Lemma api_static_refl : forall s, api_static s s.
+Proof. intros s i a H. exists a. split; [exact H|reflexivity]. Qed.
+
+Lemma api_static_trans : forall a b c, api_static a b -> api_static b c -> api_static a c.
+Proof.
+  intros a b c H1 H2 i x Hx. destruct (H1 _ _ Hx) as (y & Hy & Ey). destruct (H2 _ _ Hy) as (z & Hz & Ez).
+  exists z. split; [exact Hz|congruence].
+Qed.
+
+Lemma api_static_same : forall s s', ns_apis s' = ns_apis s -> api_static s s'.
+Proof. intros s s' E i a H. exists a. rewrite E. split; [exact H|reflexivity]. Qed.
+
+Lemma api_static_upd : forall s j f,
+    (forall a, static_of (f a) = static_of a) ->
+    api_static s (s <| ns_apis := upd j f (ns_apis s) |>).
+Proof.
+  intros s j f Hf i a H. cbn. rewrite nth_error_upd. destruct (Nat.eqb j i).
+  - rewrite H. cbn. exists (f a). split; [reflexivity|apply Hf].
+  - exists a. split; [exact H|reflexivity].
+Qed.
+
+Theorem api_static_wframe : wframe api_static.
+Proof.
+  constructor;
+    try (intros; try (match goal with |- fpres _ _ => intros ? ? ? HH; inversion HH; subst; clear HH end);
+         apply api_static_same; reflexivity).
+  - exact api_static_trans.
+  - intros i u s x s' HH. inversion HH; subst; clear HH. apply api_static_upd. reflexivity.
+  - intros i ps s x s' HH. inversion HH; subst; clear HH. apply api_static_upd. reflexivity.
+  - intros a s x s' HH. inversion HH; subst; clear HH. intros i y Hy. cbn. exists y. split; [|reflexivity].
+    rewrite nth_error_app1; [exact Hy|]. apply nth_error_Some. congruence.
+Qed.
+
+Lemma api_static_wnotif : wnotif api_static.
+Proof. intros l n r s x s' HH. inversion HH; subst; clear HH. apply api_static_same. reflexivity. Qed.
+
+(* every function of the mutual block and of the generator keeps the static part of every
+   existing API object, in particular its source parameter list *)
+Definition src_block tasks env := wframe_block api_static_wframe tasks env api_static_wnotif.
+Definition src_generate tasks := wframe_generate api_static_wframe tasks.
+
+Theorem sched_fire_event_static : forall tasks env f ev s b s',
+    sched_fire_event tasks env f ev s = Ok (b, s') -> api_static s s'.
+Proof.
+  intros tasks env f ev s b s' H.
+  exact (proj1 (proj2 (proj2 (proj2 (proj2 (proj2 (proj2 (proj2 (proj2 (src_block tasks env f))))))))) ev s b s' H).
+Qed.
+
+Theorem api_call_static : forall tasks env f s c b s',
+    net_api_call tasks env f s c = Ok (b, s') -> api_static s s'.
+Proof.
+  intros tasks env f s c b s' H.
+  assert (Q : api_static s (s <| ns_log := [] |>)) by (apply api_static_same; reflexivity).
+  destruct c as [|id| |k l|o|o]; cbn [net_api_call] in H.
+  - change (ns_awaited (s <| ns_log := [] |>)) with (ns_awaited s) in H.
+    destruct (existsb (event_eqb EvStart) (ns_awaited s)).
+    + destruct (sched_fire_event tasks env f EvStart (s <| ns_log := [] |> <| ns_running := true |>))
+        as [[r sz]| | |] eqn:E; try discriminate H. okinv H.
+      apply sched_fire_event_static in E. eapply api_static_trans; [|exact E]. apply api_static_same. reflexivity.
+    + okinv H. exact Q.
+  - apply sched_fire_event_static in H. eapply api_static_trans; [exact Q|exact H].
+  - apply sched_fire_event_static in H. eapply api_static_trans; [exact Q|exact H].
+  - change (ns_ls (s <| ns_log := [] |>)) with (ns_ls s) in H.
+    destruct (existsb _ (ns_ls s)); okinv H; apply api_static_same; reflexivity.
+  - okinv H. apply api_static_same; reflexivity.
+  - change (ns_obs (s <| ns_log := [] |>)) with (ns_obs s) in H.
+    destruct (remove_first (Nat.eqb o) (ns_obs s)); okinv H. apply api_static_same; reflexivity.
+Qed.
+
+Theorem api_reach_static : forall tasks env f s s', api_reach tasks env f s s' -> api_static s s'.
+Proof.
+  intros tasks env f s s' H. induction H as [s|s s1 c b s2 _ IH H]; [apply api_static_refl|].
+  eapply api_static_trans; [exact IH|]. eapply api_call_static; exact H.
+Qed.
+
+(* spelled out: the source list (and every other static field) of API object i after any
+   sequence of API calls, whatever the engine did, is the one it was created with *)
+Corollary source_never_modified : forall tasks env f s s' i a,
+    api_reach tasks env f s s' -> nth_error (ns_apis s) i = Some a ->
+    exists a', nth_error (ns_apis s') i = Some a' /\
+               a_src a' = a_src a /\ a_name a' = a_name a /\ a_site a' = a_site a /\
+               a_is_task a' = a_is_task a /\ a_ctx a' = a_ctx a /\ a_in_loop a' = a_in_loop a /\
+               a_has_call a' = a_has_call a.
+Proof.
+  intros tasks env f s s' i a H Ha. destruct (api_reach_static _ _ _ _ _ H _ _ Ha) as (a' & H1 & H2).
+  exists a'. split; [exact H1|]. unfold static_of in H2. inversion H2. repeat split; assumption.
 Qed.
